@@ -14,9 +14,14 @@ Cases == {[pair |-> p, dx |-> dx, dy |-> dy, zoom |-> z, pad |-> o.pad, align |-
 BigCases == {[pair |-> p, dx |-> dx, dy |-> dy, zoom |-> z, pad |-> o.pad, align |-> o.align] :
                p \in {"3575>4326big", "4326>3575big"}, dx \in 0..3, dy \in 0..5, z \in {"same", "coarser"},
                o \in {[pad |-> <<>>, align |-> <<>>], [pad |-> <<1>>, align |-> <<>>], [pad |-> <<2>>, align |-> <<4>>]}}
+\* a lon/lat source reaching to within half a degree of a pole under small kilometre tiles of a polar projection placed between 84 and 89 degrees:
+\* every latitude up to +-90 is a valid source coordinate
+PolarCases == {[pair |-> p, dx |-> dx, dy |-> dy, zoom |-> z, pad |-> o.pad, align |-> o.align] :
+                 p \in {"4326>3413polar", "4326>3575polar", "4326>3031polar"}, dx \in {-2, 0, 3}, dy \in {-3, 0, 1, 4}, z \in {"same", "coarser"},
+                 o \in {[pad |-> <<>>, align |-> <<>>], [pad |-> <<1>>, align |-> <<>>]}}
 VARIABLE c
-Init == c \in {[k |-> p] : p \in Pairs \cup {"big"}}
-Next == "k" \in DOMAIN c /\ c' \in (IF c.k = "big" THEN BigCases ELSE {x \in Cases : x.pair = c.k}) /\ Emit(c')
+Init == c \in {[k |-> p] : p \in Pairs \cup {"big", "polar"}}
+Next == "k" \in DOMAIN c /\ c' \in (IF c.k = "big" THEN BigCases ELSE IF c.k = "polar" THEN PolarCases ELSE {x \in Cases : x.pair = c.k}) /\ Emit(c')
 Spec == Init /\ [][Next]_c
 
 =============================================================================
